@@ -27,4 +27,12 @@ theorem sh_angular_form_le11 (l k : ℕ) (hl : l ≤ 11) (hk : k ≤ 2 * l) (α 
   sh_angular_form_of_check l k (ang_le11 l hl) hk α β
 example : (11 : ℕ) ≤ 11 ∧ 22 ≤ 2 * 11 := by omega
 
+/-- `ToS2Grid` evaluates the band-limited signal at the documented grid points, every `lmax ≤ 11` -/
+theorem toS2Grid_evaluates_signal_le11 (lmax N M : ℕ) (n : ℕ → ℝ) (F : ℕ → ℝ) (hl : lmax ≤ 11) :
+    ∃ g, toS2Grid lmax M n (fun j i => (legendreGrid legTable N j i : ℝ)) F = .ok g ∧
+      ∀ j a, j < N → g j a =
+        ∑ l ∈ range (lmax + 1), ∑ k ∈ range (2 * l + 1),
+          n l * F (l ^ 2 + k) * (realSH prog index l k (gridVec N M j a) / Real.sqrt (4 * Real.pi)) :=
+  toS2Grid_evaluates_signal_of_check lmax N M n F fun l h => ang_le11 l (by omega)
+
 end E3nnVerif.Props.C11
